@@ -36,6 +36,9 @@ func NewSet() *Set {
 func (s *Set) String() string {
 	codes, space := "[", ""
 	node := s.Head.Forward
+	if node == nil {
+		return "[]"
+	}
 	for node.Forward != nil {
 		for code := node.Begin; code <= node.End; code++ {
 			codes += space + fmt.Sprintf("%v", code)
